@@ -378,7 +378,67 @@ def r07_7(ctx: Ctx) -> None:
               f"unpack-size reordering differs: writer {a}, reader {b}", construct="unpacksizes recurrence")
 
 
+def _eval_reduce(ctx: Ctx, call: ast.Call, lst: List[int]):
+    """value of functools.reduce(lambda acc, y: <expr>, <list>, init) for a concrete small list (constant folding of the lambda)."""
+    if not (dotted(call.func) in ("functools.reduce", "reduce") and len(call.args) == 3 and isinstance(call.args[0], ast.Lambda)):
+        raise NotConst("not a reduce(lambda, list, init)")
+    lam = call.args[0]
+    a, b = [x.arg for x in lam.args.args]
+    acc = ctx.ce.eval(call.args[2], "archiveinfo")
+    for y in lst:
+        acc = ctx.ce.eval(lam.body, "archiveinfo", env={a: acc, b: y})
+    return acc
+
+
+def r07_8(ctx: Ctx) -> None:
+    f = ctx.prog.func("archiveinfo", "SubstreamsInfo.write")
+    cfg = cfg_of(f.node)
+    samples = [[0], [1], [2], [1, 1], [1, 0], [3, 1], [0, 0]]
+
+    def cond_of(prop: str):
+        for n in walk(f.node):
+            if isinstance(n, ast.If) and any(isinstance(c, ast.Call) and attr_tail(c) == "write_byte" and len(c.args) > 1 and norm(c.args[1]) == f"PROPERTY.{prop}" for s in n.body for c in ast.walk(s)):
+                return n
+        return None
+    for prop, want, what in (("NUM_UNPACK_STREAM", lambda l: any(x != 1 for x in l), "some folder holds a number of streams other than 1"),
+                             ("SIZE", lambda l: any(x > 1 for x in l), "some folder holds more than one stream")):
+        n = cond_of(prop)
+        ctx.need(n is not None, f"emission of {prop} not found in SubstreamsInfo.write")
+        srcs = q.sources_of(f, n.test, depth=2)
+        calls = [s for s in srcs if isinstance(s, ast.Call) and dotted(s.func) in ("functools.reduce", "reduce")]
+        ok = bool(calls)
+        table = {}
+        if ok:
+            try:
+                for l in samples:
+                    table[str(l)] = bool(_eval_reduce(ctx, calls[0], l))
+                ok = all(table[str(l)] == want(l) for l in samples)
+            except NotConst:
+                ok = False
+        ctx.check(ok, "R07.8", f, n.test, f"{prop} is written iff {what}",
+                  f"the condition for writing {prop} is not '{what}' (truth table over sample folder counts: {table}): e.g. a folder with 0 streams (archive of directories only) "
+                  "is then described as holding 1", construct=f"SubstreamsInfo.write {prop} condition")
+    # size index: advances on every stream, a size is written for all but the last stream of each folder
+    idxs = [n for n in walk(f.node) if isinstance(n, ast.AugAssign) and isinstance(n.target, ast.Name) and isinstance(n.value, ast.Constant) and n.value.value == 1 and q.enclosing_loops(f, n)]
+    ctx.need(len(idxs) == 1, "size index of SubstreamsInfo.write not recognised")
+    inner = q.enclosing_loops(f, idxs[0])[-1]
+    it = cfg.by_ast[inner]
+    body = next(s for s in it.succ if s.kind == "body")
+    every = not cfg.reaches(body, it, avoid=[q.node_for(f, idxs[0])], normal_only=True)
+    ctx.check(every, "R07.8", f, idxs[0], "size index advances for every stream", "the index into unpacksizes does not advance for the last stream of a folder: every folder after the first gets shifted sizes")
+    wr = [c for c in ast.walk(inner) if isinstance(c, ast.Call) and attr_tail(c) == "write_uint64"]
+    ok = len(wr) == 1 and any(norm(cd) == "j + 1 != num" and pol for cd, pol in q.facts_at(f, wr[0])) and norm(wr[0].args[1]).endswith(f"[{idxs[0].target.id}]")
+    ctx.check(ok, "R07.8", f, wr[0] if wr else inner, "a size is written for all but the last stream of a folder", "sizes are not written for exactly all-but-the-last stream of each folder")
+    # digests section: written when any digest is defined, with the defined vector
+    n = cond_of("CRC")
+    ok = n is not None and any(attr_tail(c) == "write_boolean" and norm(c.args[1]) == "self.digestsdefined" for s in n.body for c in ast.walk(s) if isinstance(c, ast.Call))
+    ctx.check(ok, "R07.8", f, n.test if n is not None else f.node, "CRC section carries the defined vector", "the substream CRC section is not written with the digestsdefined vector", construct="SubstreamsInfo.write CRC")
+
+
 def run(ctx: Ctx) -> None:
+    r07_8(ctx)
+    from . import c01
+    c01.r01_2(ctx)
     r07_1(ctx)
     r07_2(ctx)
     r07_3(ctx)
